@@ -8,6 +8,8 @@ package simsync
 
 import (
 	"sync"
+
+	"verifsim/simrt"
 )
 
 type (
@@ -40,6 +42,7 @@ func (rw *RWMutex) wakeLocked() {
 }
 
 func (rw *RWMutex) Lock() {
+	simrt.LockYield()
 	for {
 		rw.mu.Lock()
 		if !rw.writer && rw.readers == 0 {
@@ -76,6 +79,7 @@ func (rw *RWMutex) Unlock() {
 }
 
 func (rw *RWMutex) RLock() {
+	simrt.LockYield()
 	for {
 		rw.mu.Lock()
 		if !rw.writer {
